@@ -17,7 +17,9 @@
        (TreeSplit.apply_append_text_twice).
    Hypotheses of the split theorem (the side condition of the list-level statement in TreeSplitRun.v):
        mode = "in body", "in caption", "in template" or "in cell" (the last three delegate to "in body"; the shape
-       assumption of "in cell" - a td / th element is open - is carried through reconstruct), foster parenting off, the adjusted current node is an HTML element (the token is not
+       assumption of "in cell" - a td / th element is open - is carried through reconstruct), or mode = "after body",
+       "after after body", "after after frameset" with a token of white space only (cut into runs by the loop:
+       two iterations, then "in body"; [xok]), foster parenting off, the adjusted current node is an HTML element (the token is not
        handled by the foreign-content rules) and the current node is not a template element.
    ======================================================================== *)
 From Coq Require Import List NArith Bool Arith Lia String.
@@ -231,17 +233,25 @@ Qed.
 (* ---------- closed forms ---------- *)
 (* the modes whose character arm is the one of "in body" (in cell is left out: its shape assumption would have to be
    carried through reconstruct) *)
-Definition dmode (m : imode) : Prop := m = InBody \/ m = InCaption \/ m = InTemplate \/ m = InCell.
+Definition dmode (m : imode) : Prop :=
+  m = InBody \/ m = InCaption \/ m = InTemplate \/ m = InCell \/ m = AfterBody \/ m = AfterAfterBody \/ m = AfterAfterFrameset.
+(* the three "after" modes hand only WHITE SPACE to "in body" (after cutting the token into runs: SplitWhitespace) *)
+Definition xok (m : imode) (x : str) : Prop :=
+  match m with
+  | AfterBody | AfterAfterBody | AfterAfterFrameset => x <> [] /\ any_not_whitespace x = false
+  | _ => True
+  end.
 
 Definition bodyhyp (s : st) : Prop :=
   TInv s /\ dmode (mode s) /\ Hshape s /\ foster_parenting s = false /\ adjusted_ns s = ns_html /\
   exists h, vlast (open_elems s) = Some h /\ named s h "template" = false.
 
 (* the shape assumption says nothing in three of the modes; in "in cell": a td or th element is open *)
-Lemma hshape_in_body s : mode s = InBody \/ mode s = InCaption \/ mode s = InTemplate -> Hshape s.
-Proof. intros [E|[E|E]]; unfold Hshape, hshape_b; rewrite E; reflexivity. Qed.
+Lemma hshape_in_body s : mode s = InBody \/ mode s = InCaption \/ mode s = InTemplate \/
+  mode s = AfterBody \/ mode s = AfterAfterBody \/ mode s = AfterAfterFrameset -> Hshape s.
+Proof. intros [E|[E|[E|[E|[E|E]]]]]; unfold Hshape, hshape_b; rewrite E; reflexivity. Qed.
 Lemma dmode_late s : dmode (mode s) -> late s.
-Proof. intros [E|[E|[E|E]]]; unfold late; rewrite E; reflexivity. Qed.
+Proof. intros [E|[E|[E|[E|[E|[E|E]]]]]]; unfold late; rewrite E; reflexivity. Qed.
 Lemma hshape_in_cell s : mode s = InCell ->
   hshape_b s = existsb (fun x => in_set td_th (ename_of s x)) (open_elems s).
 Proof.
@@ -252,7 +262,7 @@ Qed.
 Lemma hshape_transfer q sr : dmode (mode q) -> mode sr = mode q -> Hshape q ->
   incl (open_elems q) (open_elems sr) -> (forall x, In x (open_elems q) -> ename_of sr x = ename_of q x) -> Hshape sr.
 Proof.
-  intros [E|[E|[E|E]]] Em Sh Inc En; try (apply hshape_in_body; rewrite Em; tauto).
+  intros [E|[E|[E|[E|[E|[E|E]]]]]] Em Sh Inc En; try (apply hshape_in_body; rewrite Em; tauto).
   unfold Hshape in *. rewrite hshape_in_cell in * by congruence.
   apply existsb_exists in Sh. destruct Sh as (x & Hx & Tx). apply existsb_exists. exists x.
   split; [apply Inc; exact Hx | rewrite (En x Hx); exact Tx].
@@ -261,6 +271,9 @@ Qed.
 Definition pre_arm (m : imode) : list event :=
   match m with
   | InCell => [EvArm (mode_id InCell) 4]
+  | AfterBody => [EvArm (mode_id AfterBody) 1; EvArm (mode_id AfterBody) 0]
+  | AfterAfterBody => [EvArm (mode_id AfterAfterBody) 1; EvArm (mode_id AfterAfterBody) 0]
+  | AfterAfterFrameset => [EvArm (mode_id AfterAfterFrameset) 1; EvArm (mode_id AfterAfterFrameset) 0]
   | InCaption => [EvArm (mode_id InCaption) 2]
   | InTemplate => [EvArm (mode_id InTemplate) 0]
   | _ => []
@@ -290,41 +303,109 @@ Proof. rewrite (first_match_chars_ext _ sp x []). destruct sp; reflexivity. Qed.
 Lemma first_match_template_chars sp x : first_match heads_in_template (KChars sp x) = 0.
 Proof. rewrite (first_match_chars_ext _ sp x []). destruct sp; reflexivity. Qed.
 
-Lemma step_in_body_chars q x sr target :
+Lemma step_in_body_chars q sp x sr target :
   reconstruct_active_formatting_elements (set_out (EvArm (mode_id InBody) 1 :: out q) q) = Ok tt sr ->
   foster_parenting sr = false -> vlast (open_elems sr) = Some target -> named sr target "template" = false ->
-  step_in_body (KChars NotSplit x) q = Ok Done (body_fin x sr target).
+  step_in_body (KChars sp x) q = Ok Done (body_fin x sr target).
 Proof.
   intros R Fp V Nt. unfold step_in_body, step_in_body_gen, arm_dispatch. cbv zeta.
   rewrite first_match_body_chars. unfold bind at 1. unfold log_arm, modify. cbn [nth bodies_in_body_gen]. unfold ib_arm_1.
   cbn [tk_text]. unfold bind at 1. rewrite R. apply body_tail_eq; assumption.
 Qed.
 
+(* a token of white space only in a mode that cuts character tokens into runs: two iterations of the loop *)
+Lemma span_all_ws x : any_not_whitespace x = false -> span (fun c => Bool.eqb (is_ascii_ws c) true) x = (x, []).
+Proof.
+  induction x as [|c r IH]; intro H; [reflexivity|]. unfold any_not_whitespace in H. cbn [existsb] in H.
+  apply orb_false_iff in H. destruct H as [Hc Hr]. cbn [span].
+  destruct (is_ascii_ws c); [|discriminate]. cbn [Bool.eqb]. rewrite (IH Hr). reflexivity.
+Qed.
+
+Lemma pop_all_ws x : x <> [] -> any_not_whitespace x = false -> pop_front_char_run x = Some (x, true, []).
+Proof.
+  intros N H. destruct x as [|c r]; [contradiction|]. unfold pop_front_char_run.
+  assert (Wc : is_ascii_ws c = true).
+  { unfold any_not_whitespace in H. cbn [existsb] in H. apply orb_false_iff in H. destruct H as [Hc _].
+    destruct (is_ascii_ws c); [reflexivity | discriminate]. }
+  rewrite Wc. rewrite (span_all_ws (c :: r) H). reflexivity.
+Qed.
+
+Definition alog (m : imode) (k : nat) (q : st) : st := set_out (EvArm (mode_id m) k :: out q) q.
+
+Lemma ptc_ws_gen s x k0 s' :
+  Hshape s -> x <> [] -> any_not_whitespace x = false ->
+  is_foreign (KChars NotSplit x) s = Ok false s ->
+  is_foreign (KChars Whitespace x) (alog (mode s) k0 s) = Ok false (alog (mode s) k0 s) ->
+  step (mode s) (KChars NotSplit x) s = Ok (SplitWhitespace x) (alog (mode s) k0 s) ->
+  step (mode s) (KChars Whitespace x) (alog (mode s) k0 s) = Ok Done s' ->
+  process_to_completion (KChars NotSplit x) s = Ok SContinue s'.
+Proof.
+  intros Sh Nx Ws F1 F2 E1 E2.
+  unfold process_to_completion. unfold bind at 1. unfold get.
+  unfold ptc_fuel. change (64 + 4 * length (tk_text (KChars NotSplit x)) + 4 * length (open_elems s) + 4 * length (template_modes s))
+    with (S (S (62 + 4 * length (tk_text (KChars NotSplit x)) + 4 * length (open_elems s) + 4 * length (template_modes s)))).
+  cbn [ptc_loop]. unfold ptc_iter at 1. cbv zeta.
+  unfold bind at 1. unfold bind at 1. rewrite (shape_check_ok s Sh).
+  unfold bind at 1. rewrite F1.
+  unfold bind at 1. unfold bind at 1. unfold get. rewrite E1. rewrite (pop_all_ws x Nx Ws).
+  cbn [is_nil negb when]. unfold bind at 1. unfold ret at 1. unfold ret at 1.
+  unfold ptc_iter. cbv zeta.
+  unfold bind at 1. unfold bind at 1.
+  rewrite (shape_check_ok (alog (mode s) k0 s) (Hshape_set_out _ s Sh)).
+  unfold bind at 1. rewrite F2.
+  unfold bind at 1. unfold bind at 1. unfold get.
+  change (mode (alog (mode s) k0 s)) with (mode s). rewrite E2. reflexivity.
+Qed.
+
+Ltac fm_rw :=
+  match goal with
+  | |- context [first_match ?H (KChars ?sp ?x)] =>
+      let v := eval vm_compute in (first_match H (KChars sp [])) in
+      replace (first_match H (KChars sp x)) with v
+        by (rewrite (first_match_chars_ext H sp x []); vm_compute; reflexivity)
+  end.
+
 Lemma ptc_body s x sr target :
-  TInv s -> dmode (mode s) -> Hshape s -> adjusted_ns s = ns_html ->
+  TInv s -> dmode (mode s) -> xok (mode s) x -> Hshape s -> adjusted_ns s = ns_html ->
   reconstruct_active_formatting_elements (arm_state s) = Ok tt sr ->
   foster_parenting sr = false -> vlast (open_elems sr) = Some target -> named sr target "template" = false ->
   process_to_completion (KChars NotSplit x) s = Ok SContinue (body_fin x sr target).
 Proof.
-  intros I Dm Sh A R Fp V Nt. assert (L : late s) by (apply dmode_late; exact Dm).
-  unfold process_to_completion. unfold bind at 1. unfold get.
-  unfold ptc_fuel. change (64 + 4 * length (tk_text (KChars NotSplit x)) + 4 * length (open_elems s) + 4 * length (template_modes s))
-    with (S (63 + 4 * length (tk_text (KChars NotSplit x)) + 4 * length (open_elems s) + 4 * length (template_modes s))).
-  cbn [ptc_loop]. unfold ptc_iter. cbv zeta.
-  unfold bind at 1. unfold bind at 1. rewrite (shape_check_ok s Sh).
-  unfold bind at 1. rewrite (is_foreign_chars_html s NotSplit x I L A).
-  unfold bind at 1. unfold bind at 1. unfold get. unfold arm_state in R.
-  destruct Dm as [Em|[Em|[Em|Em]]]; rewrite Em in R |- *; cbn [step].
-  - rewrite (step_in_body_chars s x sr target R Fp V Nt). reflexivity.
+  intros I Dm Xok Sh A R Fp V Nt. assert (L : late s) by (apply dmode_late; exact Dm).
+  assert (After : forall k0, (mode s = AfterBody \/ mode s = AfterAfterBody \/ mode s = AfterAfterFrameset) ->
+            x <> [] -> any_not_whitespace x = false ->
+            step (mode s) (KChars NotSplit x) s = Ok (SplitWhitespace x) (alog (mode s) k0 s) ->
+            step (mode s) (KChars Whitespace x) (alog (mode s) k0 s) = Ok Done (body_fin x sr target) ->
+            process_to_completion (KChars NotSplit x) s = Ok SContinue (body_fin x sr target)).
+  { intros k0 _ Nx Ws E1 E2. apply (ptc_ws_gen s x k0); try assumption.
+    - apply is_foreign_chars_html; assumption.
+    - apply is_foreign_chars_html; [eapply TInv_core_eq; [apply core_eq_set_out; reflexivity | exact I] | exact L | exact A]. }
+  unfold arm_state in R.
+  destruct Dm as [Em|[Em|[Em|[Em|Em]]]].
+  5:{ assert (Xok' : x <> [] /\ any_not_whitespace x = false) by (destruct Em as [Em|[Em|Em]]; rewrite Em in Xok; exact Xok).
+      destruct Xok' as [Nx Ws]. apply (After 0 Em Nx Ws); destruct Em as [Em|[Em|Em]]; rewrite Em in R |- *; cbn [step];
+        unfold step_after_body, step_after_after_body, step_after_after_frameset, arm_dispatch; cbv zeta; fm_rw;
+        unfold bind at 1; unfold log_arm, modify;
+        cbn [nth bodies_after_body bodies_after_after_body bodies_after_after_frameset]; try reflexivity;
+        apply (step_in_body_chars _ Whitespace x sr target); assumption. }
+  all: unfold process_to_completion; unfold bind at 1; unfold get; unfold ptc_fuel;
+    change (64 + 4 * length (tk_text (KChars NotSplit x)) + 4 * length (open_elems s) + 4 * length (template_modes s))
+      with (S (63 + 4 * length (tk_text (KChars NotSplit x)) + 4 * length (open_elems s) + 4 * length (template_modes s)));
+    cbn [ptc_loop]; unfold ptc_iter; cbv zeta;
+    unfold bind at 1; unfold bind at 1; rewrite (shape_check_ok s Sh);
+    unfold bind at 1; rewrite (is_foreign_chars_html s NotSplit x I L A);
+    unfold bind at 1; unfold bind at 1; unfold get;
+    rewrite Em in R |- *; cbn [step].
+  - rewrite (step_in_body_chars s NotSplit x sr target R Fp V Nt). reflexivity.
   - unfold step_in_caption, arm_dispatch. cbv zeta. rewrite first_match_caption_chars.
     unfold bind at 1. unfold log_arm, modify. cbn [nth bodies_in_caption].
-    rewrite (step_in_body_chars (set_out (EvArm (mode_id InCaption) 2 :: out s) s) x sr target R Fp V Nt). reflexivity.
+    rewrite (step_in_body_chars (set_out (EvArm (mode_id InCaption) 2 :: out s) s) NotSplit x sr target R Fp V Nt). reflexivity.
   - unfold step_in_template, step_in_template_gen, arm_dispatch. cbv zeta. rewrite first_match_template_chars.
     unfold bind at 1. unfold log_arm, modify. cbn [nth bodies_in_template_gen].
-    rewrite (step_in_body_chars (set_out (EvArm (mode_id InTemplate) 0 :: out s) s) x sr target R Fp V Nt). reflexivity.
+    rewrite (step_in_body_chars (set_out (EvArm (mode_id InTemplate) 0 :: out s) s) NotSplit x sr target R Fp V Nt). reflexivity.
   - unfold step_in_cell, arm_dispatch. cbv zeta. rewrite first_match_cell_chars.
     unfold bind at 1. unfold log_arm, modify. cbn [nth bodies_in_cell].
-    rewrite (step_in_body_chars (set_out (EvArm (mode_id InCell) 4 :: out s) s) x sr target R Fp V Nt). reflexivity.
+    rewrite (step_in_body_chars (set_out (EvArm (mode_id InCell) 4 :: out s) s) NotSplit x sr target R Fp V Nt). reflexivity.
 Qed.
 
 Lemma sig_arm m evs : sig (EvArm (mode_id InBody) 1 :: pre_arm m ++ evs) = sig evs.
@@ -336,7 +417,7 @@ Lemma body_closed q : bodyhyp q ->
     reconstruct_active_formatting_elements (arm_state q) = Ok tt sr /\
     TInv sr /\ mode sr = mode q /\ Hshape sr /\ RPost sr /\ foster_parenting sr = false /\ ignore_lf sr = ignore_lf q /\
     vlast (open_elems sr) = Some target /\ named sr target "template" = false /\
-    forall x, process_to_completion (KChars NotSplit x) q = Ok SContinue (body_fin x sr target).
+    forall x, xok (mode q) x -> process_to_completion (KChars NotSplit x) q = Ok SContinue (body_fin x sr target).
 Proof.
   intros (I & Em & Sh & Fp & A & Nt).
   assert (L : late (arm_state q)) by (exact (dmode_late q Em)).
@@ -355,7 +436,7 @@ Proof.
   assert (Fr : foster_parenting sr = false) by (rewrite F1; exact Fp).
   exists sr, target. split; [reflexivity|]. split; [exact Ir|]. split; [exact (st_mode _ _ Sr)|].
   split; [exact Shr|]. split; [exact P|]. split; [exact Fr|]. split; [rewrite F2; reflexivity|]. split; [exact V|]. split; [exact Ntr|].
-  intro x. apply ptc_body; assumption.
+  intros x Xok. apply ptc_body; assumption.
 Qed.
 
 (* ---------- the prelude of process_token on a character token ---------- *)
@@ -481,18 +562,40 @@ Proof.
 Qed.
 
 (* C03, tree-builder side, "in body": one character token or two *)
+Lemma mode_prelude s line x : mode (prelude_state s line x) = mode s.
+Proof. apply (prelude_state_cases s line x). intro evs. reflexivity. Qed.
+
+Lemma xok_pieces m a b : xok m (a ++ b) -> a <> [] -> b <> [] -> xok m a /\ xok m b.
+Proof.
+  intros H Na Nb. destruct m; try (split; exact I); destruct H as [_ W]; rewrite any_not_whitespace_app in W;
+    apply orb_false_iff in W; destruct W as [Wa Wb]; repeat split; assumption.
+Qed.
+Lemma xok_app m a b : xok m a -> xok m b -> xok m (a ++ b).
+Proof.
+  intros Ha Hb. destruct m; try exact I; destruct Ha as [Na Wa], Hb as [Nb Wb];
+    (split; [destruct a; [contradiction | discriminate] | rewrite any_not_whitespace_app, Wa, Wb; reflexivity]).
+Qed.
+Lemma xok_strip m ign a c r : xok m a -> strip_lf ign a = c :: r -> xok m (c :: r).
+Proof.
+  intros Ha E. destruct m; try exact I; destruct Ha as [Na Wa]; (split; [discriminate|]); rewrite <- E;
+    destruct a as [|c0 r0]; try contradiction; unfold strip_lf; destruct (ign && N.eqb c0 10); try exact Wa;
+    unfold any_not_whitespace in *; cbn [existsb] in Wa; apply orb_false_iff in Wa; exact (proj2 Wa).
+Qed.
+
 Theorem body_mode_split s line line' a b :
-  bodyhyp s -> a <> [] -> b <> [] ->
+  bodyhyp s -> xok (mode s) (a ++ b) -> a <> [] -> b <> [] ->
   exists s1 sa s2,
     process_token (TChars (a ++ b)) line s = Ok SContinue s1 /\
     process_token (TChars a) line s = Ok SContinue sa /\
     process_token (TChars b) line' sa = Ok SContinue s2 /\
     same_core s1 s2 /\ dom_of s1 = dom_of s2 /\ TInv s1 /\ TInv s2.
 Proof.
-  intros Hs Na Nb. pose proof Hs as (I & _).
+  intros Hs Xab Na Nb. pose proof Hs as (I & _).
+  destruct (xok_pieces _ _ _ Xab Na Nb) as [Xa Xb].
   destruct (bodyhyp_prelude s line a Hs) as [Hp Ilp]. set (p := prelude_state s line a) in *.
+  assert (Mp : mode p = mode s) by apply mode_prelude.
   destruct (body_closed p Hp) as (sr & target & R & Ir & Emr & Shr & P & Fr & Ilr & V & Nt & G).
-  rewrite Ilp in Ilr.
+  rewrite Ilp in Ilr. rewrite Mp in G.
   assert (Core : exists s1 sa s2,
     process_token (TChars (a ++ b)) line s = Ok SContinue s1 /\
     process_token (TChars a) line s = Ok SContinue sa /\
@@ -517,7 +620,8 @@ Proof.
     assert (Et : target2 = target).
     { pose proof (same_core_open _ _ Csr) as Eo. rewrite Eo in V. congruence. }
     subst target2. exists (body_fin (cb :: rb) sr2 target).
-    split; [apply G|]. split; [reflexivity|]. split; [apply G2|].
+    split; [apply G; exact Xb|]. split; [reflexivity|].
+    split; [apply G2; unfold p2; rewrite mode_prelude, Mp; exact Xb|].
     split; [apply same_core_body_fin; exact Csr|].
     rewrite !dom_body_fin. f_equal.
     rewrite (dom_of_app_out _ _ _ O1), (dom_of_app_out _ _ _ O2), !dom_arm_state. unfold p2. rewrite dom_prelude_state. reflexivity.
@@ -525,10 +629,11 @@ Proof.
     cbn [app]. change (c :: r' ++ cb :: rb) with ((c :: r') ++ (cb :: rb)).
     set (a' := c :: r') in *. set (b := cb :: rb) in *.
     set (sa := body_fin a' sr target).
+    assert (Xa' : xok (mode s) a') by (apply (xok_strip _ (ignore_lf s) a c r' Xa Ea)).
     exists (body_fin (a' ++ b) sr target), sa, (second_state a' b sr target line').
-    split; [apply G|]. split; [apply G|].
+    split; [apply G; apply xok_app; assumption|]. split; [apply G; exact Xa'|].
     assert (Isa : TInv sa).
-    { apply (TInv_after_chars s line a SContinue sa I). rewrite process_token_chars, Ea. apply G. }
+    { apply (TInv_after_chars s line a SContinue sa I). rewrite process_token_chars, Ea. apply G. exact Xa'. }
     assert (Dmr : dmode (mode sr)) by (rewrite Emr; destruct Hp as (_ & Dp & _); exact Dp).
     assert (Hsa : bodyhyp sa).
     { destruct P as (_ & Ar & _). unfold sa, body_fin in *.
@@ -541,7 +646,9 @@ Proof.
     split.
     { rewrite process_token_chars, Ilsa, strip_lf_false. unfold b at 1. fold b. fold p2.
       unfold second_state. fold sa. fold p2.
-      apply ptc_body; [exact Ip2 | exact Em2 | exact Sh2 | exact A2 | | | |].
+      assert (M2 : mode p2 = mode s).
+      { unfold p2. rewrite mode_prelude. unfold sa, body_fin. destruct (any_not_whitespace a'); cbn [mode set_out set_frameset_ok]; congruence. }
+      apply ptc_body; [exact Ip2 | exact Em2 | rewrite M2; exact Xb | exact Sh2 | exact A2 | | | |].
       - apply reconstruct_noop. destruct P as (Lo & _). unfold p2. apply (prelude_state_cases sa line' b). intro evs.
         unfold sa, body_fin. destruct (any_not_whitespace a'); exact Lo.
       - apply recon_noop_cases. intro evs0. unfold p2. apply (prelude_state_cases sa line' b). intro evs.
@@ -557,7 +664,9 @@ Qed.
 
 (* the same with the hypotheses spelled out *)
 Theorem body_mode_split_explicit s line line' a b target :
-  TInv s -> mode s = InBody \/ mode s = InCaption \/ mode s = InTemplate \/ (mode s = InCell /\ Hshape s) ->
+  TInv s ->
+  mode s = InBody \/ mode s = InCaption \/ mode s = InTemplate \/ (mode s = InCell /\ Hshape s) \/
+  ((mode s = AfterBody \/ mode s = AfterAfterBody \/ mode s = AfterAfterFrameset) /\ any_not_whitespace (a ++ b) = false) ->
   foster_parenting s = false -> adjusted_ns s = ns_html ->
   vlast (open_elems s) = Some target -> is_template_node s target = false ->
   a <> [] -> b <> [] ->
@@ -567,9 +676,13 @@ Theorem body_mode_split_explicit s line line' a b target :
     process_token (TChars b) line' sa = Ok SContinue s2 /\
     same_core s1 s2 /\ dom_of s1 = dom_of s2 /\ TInv s1 /\ TInv s2.
 Proof.
-  intros I Dm Fp A V Nt Na Nb. apply body_mode_split; [|exact Na | exact Nb].
+  intros I Dm Fp A V Nt Na Nb.
   assert (Sh : Hshape s).
-  { destruct Dm as [E|[E|[E|[_ Sh]]]]; [apply hshape_in_body; tauto | apply hshape_in_body; tauto | apply hshape_in_body; tauto | exact Sh]. }
+  { destruct Dm as [E|[E|[E|[[_ Sh]|[E _]]]]]; try exact Sh; apply hshape_in_body; tauto. }
   assert (Dm' : dmode (mode s)) by (unfold dmode; tauto).
+  assert (Xab : xok (mode s) (a ++ b)).
+  { destruct Dm as [E|[E|[E|[[E _]|[[E|[E|E]] W]]]]]; rewrite E; cbn [xok]; try exact Logic.I;
+      (split; [destruct a; [contradiction | discriminate] | exact W]). }
+  apply body_mode_split; [|exact Xab | exact Na | exact Nb].
   split; [exact I|]. split; [exact Dm'|]. split; [exact Sh|]. split; [exact Fp|]. split; [exact A|]. exists target. split; [exact V | exact Nt].
 Qed.
